@@ -501,8 +501,11 @@ def main_check(pid, tier, seed, cases=None, jobs=None, wall=None):
     jobs = jobs or int(os.environ.get("VERIF_JOBS", "0")) or min(16, os.cpu_count() or 4)
     chunk = cfg.get("chunk", max(1, min(400, ncases // (jobs * 4) or 1)))
 
+    # VERIF_TRIAGE=1 (tools/mutate.py only): no self-test, stop at the first violation, no shrinking, no replay
+    # file, no evidence -- a fast yes/no for mass runs against deliberately broken copies of the tree
+    triage = os.environ.get("VERIF_TRIAGE") == "1"
     # determinism self-test first (harness error if it fails: nothing would be believable)
-    det = selftest_determinism(pid, mod, tier, seed, k=cfg.get("det_k", 4))
+    det = dict(ok=True, skipped=True) if triage else selftest_determinism(pid, mod, tier, seed, k=cfg.get("det_k", 4))
     if not det.get("ok"):
         print("HARNESS-ERROR property=%s determinism self-test failed: %s" % (pid, json.dumps(det)[:1500]))
         return 2
@@ -543,6 +546,8 @@ def main_check(pid, tier, seed, cases=None, jobs=None, wall=None):
             agg["errors"].extend(out["errors"])
             if len(agg["samples"]) < 3:
                 agg["samples"].extend(out["samples"][:3 - len(agg["samples"])])
+            if triage and (agg["viol"] or agg["errors"]):
+                break
     except BaseException as exn:
         harness_failed = "worker pool failed: %r" % (exn,)
     finally:
@@ -551,6 +556,17 @@ def main_check(pid, tier, seed, cases=None, jobs=None, wall=None):
 
     if agg["errors"]:
         harness_failed = "harness exception in case %d: %s" % agg["errors"][0]
+    if triage:
+        if harness_failed:
+            print("TRIAGE-HARNESS-ERROR property=%s %s" % (pid, harness_failed[:300].replace("\n", " ")))
+            return 2
+        seen = set()
+        for (idx, viols, values) in sorted(agg["viol"], key=lambda t: t[0]):
+            if viols[0][0] not in seen and len(seen) < 3:
+                seen.add(viols[0][0])
+                print("TRIAGE-VIOLATION property=%s case=%d oracle=%s %s" % (pid, idx, viols[0][0], viols[0][1][:200].replace("\n", " ")))
+        print("TRIAGE property=%s cases=%d violations=%d" % (pid, agg["evals"], len(agg["viol"])))
+        return 1 if agg["viol"] else 0
 
     # ---- violations: minimise, write replay, confirm in a fresh interpreter
     reported = []
